@@ -142,6 +142,5 @@ func extractC12() {
 		return out
 	}
 	g.def("methodMatchCalls", "List String", leanList(calls("method/method_filter.go", "Matcher", "matches", "strings.EqualFold")))
-	g.def("headerNewFilterCalls", "List String", leanList(calls("header/header_filter.go", "", "NewFilter", "http.CanonicalHeaderKey")))
 	g.def("queryMatchCalls", "List String", leanList(calls("querystring/query_string_matcher.go", "Matcher", "MatchRequest", "req.URL.Query")))
 }
